@@ -2,7 +2,7 @@
 # runs every property's thorough command once, sequentially; prints rc and time per property (used via `vp run`)
 cd "$(dirname "$0")/.."
 bin/setup > /dev/null 2>&1
-for p in C09 C18 C19 C02 C07 C10 C13 C14 C15 C16 C08 C05 C11 C06 C17 C03 C01 C04; do
+for p in ${THOROUGH_PROPS:-C09 C18 C19 C02 C07 C10 C13 C14 C15 C16 C08 C05 C11 C06 C17 C03 C01 C04}; do
   s=$(date +%s)
   out=$(bin/check $p --tier thorough 2>&1); rc=$?
   e=$(date +%s)
